@@ -49,10 +49,12 @@ def tx_case(draw, profile="full", segwit=None, max_io=None):
         n_out = draw(st.integers(1, max_io or 4))
         many = False
     else:
-        shape = draw(st.sampled_from(["few", "few", "few", "few", "many-in", "many-out"]))
-        many = shape != "few"
+        shape = draw(st.sampled_from(["few", "few", "few", "few", "mid", "many-in", "many-out"]))
+        many = shape.startswith("many")
         n_in = draw(st.sampled_from([252, 253, 254, 300])) if shape == "many-in" else draw(st.integers(1, 3))
         n_out = draw(st.sampled_from([252, 253, 254, 300])) if shape == "many-out" else draw(st.integers(1, 3))
+        if shape == "mid":
+            n_in, n_out = draw(st.integers(1, 12)), draw(st.integers(4, 40))
     is_segwit = draw(st.booleans()) if segwit is None else segwit
     if many:
         # Hypothesis caps the bytes one example may draw (8 KiB), so wide transactions are expanded from one drawn
@@ -84,6 +86,9 @@ def tx_case(draw, profile="full", segwit=None, max_io=None):
     else:
         sblob = st.binary(max_size=80).map(bytes.hex) if small else blob(big=big)
         tiny = st.binary(max_size=3).map(bytes.hex)
+        if not small and shape == "mid":
+            # smallest possible inputs/outputs: empty (or 1-byte) scripts throughout
+            sblob = st.just("") if draw(st.booleans()) else st.sampled_from(["", "", "", "51"])
         ins = []
         for _ in range(n_in):
             ins.append(
@@ -147,6 +152,8 @@ def features(tx):
         f.append("n_in>=253")
     if len(tx["outs"]) >= 253:
         f.append("n_out>=253")
+    if len(tx["outs"]) >= 5 and all(len(o["script"]) == 0 for o in tx["outs"]):
+        f.append("outs>=5-all-empty-scripts")
     sl = [len(i["script"]) for i in tx["ins"]] + [len(o["script"]) for o in tx["outs"]]
     if any(n >= 65536 for n in sl):
         f.append("script>=65536")
